@@ -137,7 +137,7 @@ fn pq_inp(name: &str, bytes: Vec<u8>, policy: PageIndexPolicy, marks: Vec<usize>
         marks,
         cfg: Cfg::Pq(PqCfg { policy, file_len: bytes.len() as u64 }),
         bytes,
-        bodies: vec![],
+        bodies: vec![], must: vec![], batch_sizes: None, lean: false,
         uses_bs: false,
         allow_empty: true,
         pinned,
